@@ -573,3 +573,48 @@ def fam_cancel(tier: str, rng: random.Random) -> Iterator[dict]:
 def json_copy(x: Any) -> Any:
     import json as _json
     return _json.loads(_json.dumps(x))
+
+
+# ------------------------------------------------------------------------------------------------------
+def fam_conc(tier: str, rng: random.Random, isasync: bool = False) -> Iterator[dict]:
+    """C12: concurrent calls of the same function / on the same object; context-inheritance modes.
+
+    Task 1 optionally runs contracted code first (warm), then spawns tasks 2 and 3, each in a fresh context or
+    in a copy of task 1's context.  f1(1) satisfies its precondition, f1(2) violates it.
+    """
+    aw = [Op("await", 0)] if isasync else []
+    for warm in (False, True):
+        for copy2 in (0, 1):
+            for copy3 in (0, 1):
+                for variant in ("func", "method"):
+                    for calls3 in ([2], [2, 1]):
+                        if variant == "func":
+                            cons = [Con("pre", "default", False, [True, True, False]), Con("post")]
+                            fns = [Fn("func", 0, isasync, ["chk"], [[1]], [], [2], script=aw)]
+                            cls, obj = [], []
+                            d1 = ([Op("call", 1, 0, 1)] if warm else []) + [Op("spawn", 2, 0, copy2), Op("spawn", 3, 0, copy3)]
+                            d2 = [Op("call", 1, 0, 1)]
+                            d3 = [Op("call", 1, 0, a) for a in calls3]
+                        else:
+                            # a shared object with an invariant (always true) and a method with a precondition
+                            cons = [Con("inv", "default", False, [False, True, True]),
+                                    Con("pre", "default", False, [True, True, False])]
+                            fns = [Fn("init", 1, False, ["init"], out=[RetV(0)] * 3, setst=1),
+                                   Fn("method", 1, isasync, ["inv", "chk"], [[2]], script=aw)]
+                            cls, obj = [Cls([1])], [{"cls": 1, "st0": 0}]
+                            if not warm:
+                                continue  # the object has to be constructed by task 1 first
+                            d1 = [Op("call", 1, 1, 1), Op("spawn", 2, 0, copy2), Op("spawn", 3, 0, copy3)]
+                            d2 = [Op("call", 2, 1, 1)]
+                            d3 = [Op("call", 2, 1, a) for a in calls3]
+                        yield Prog(fns, cons, [], cls, obj, [d1, d2, d3], tag="conc-{}-{}".format(variant, "async" if isasync else "thread"))
+    # a task created while its parent is evaluating contracts (inside a suspension window)
+    for copy2 in (0, 1):
+        cons = [Con("pre", "default", False, [True, True, False], script=[Op("spawn", 2, 0, copy2)]), Con("post")]
+        if isasync:
+            cons[0]["rv"] = "corofn"
+            cons[0]["script"] = [Op("spawn", 2, 0, copy2)] + aw
+        fns = [Fn("func", 0, isasync, ["chk"], [[1]], [], [2], script=aw)]
+        d1 = [Op("call", 1, 0, 1)]
+        d2 = [Op("call", 1, 0, 2), Op("call", 1, 0, 1)]
+        yield Prog(fns, cons, [], [], [], [d1, d2], tag="conc-spawn-in-window")
